@@ -4,10 +4,13 @@ EXTENDS MCInfoLib
 \* ---- Fb corpus: all framebuffer type bytes x colour-info lengths ----------------------------------
 FbParams == { [tb |-> tb, blen |-> bl, nc |-> nc] : tb \in 0..255, bl \in {0, 1, 2, 5, 6, 8, 11}, nc \in {0} }
             \cup { [tb |-> tb, blen |-> bl, nc |-> nc] : tb \in {0, 1, 2}, bl \in 0..17, nc \in 0..6 \cup {255, 21845, 21846, 21847, 32768, 43691, 43692, 65535} }
+            \* few bits per pixel, more colours than 2^bpp: the palette is as long as the tag says
+            \cup { [tb |-> 0, blen |-> 2 + 3 * nc, nc |-> nc, bpp |-> b] : nc \in {3, 5, 17}, b \in {0, 1, 2, 4} }
 FbTag(p) ==
   LET size == 32 + p.blen
-      t == RawTag(8, size, 0) IN
-  Override(Override(t, 29, <<p.tb>>), 32, SubSeq(U16Bytes(p.nc) \o [i \in 1..16 |-> i], 1, p.blen))
+      t0 == RawTag(8, size, 0)
+      t == IF "bpp" \in DOMAIN p THEN Override(t0, 28, <<p.bpp>>) ELSE t0 IN
+  Override(Override(t, 29, <<p.tb>>), 32, SubSeq(U16Bytes(p.nc) \o [i \in 1..60 |-> i], 1, p.blen))
 FbCase(p) ==
   [mem |-> InfoImage(<<FbTag(p), Neighbour>>), al |-> 0,
    calls |-> <<[op |-> "load"], [op |-> "get", kind |-> "framebuffer"],
